@@ -92,7 +92,7 @@ func vfsPoint() bool {
 func vfsReset() {
 	vfsFiles = nil
 	vfsMut = 0
-	vfsArmed, vfsFault, vfsFaulted, vfsInData = false, false, false, false
+	vfsArmed, vfsFault, vfsFaulted, vfsInData, vfsFewCuts = false, false, false, false, false
 }
 
 //gosmt:replace os.MkdirAll
@@ -517,7 +517,7 @@ func vDataFileWriteAt(df *DataFile, b []byte, off int64) (int, error) {
 	if crash || fail {
 		// a crash cuts the write at every byte; an injected error uses representative partial lengths
 		cut := 0
-		if crash {
+		if crash && !vfsFewCuts {
 			cut = vChoose(len(b) + 1)
 		} else {
 			cuts := []int{0, 1, len(b) / 2, len(b) - 1, len(b)}
@@ -598,6 +598,12 @@ func vDisarmFault() bool {
 	return f
 }
 func vPowerLossMode(on bool) { vfsPowerLoss = on }
+
+// vFewCuts: a crash tears a segment write at the representative lengths {0, 1, len/2, len-1, len} instead
+// of at every byte (used by the quick power-loss configurations; every-byte tearing is C10's).
+var vfsFewCuts bool
+
+func vFewCuts(on bool) { vfsFewCuts = on }
 
 // vPowerFail turns the crash into a power loss: every file independently either keeps its current
 // content or reverts to its content at its last sync (files never synced may vanish, unsynced removals
